@@ -8,7 +8,7 @@ refused, exit 3, and the hand model is used instead - reported by the check):
   * `isinstance(x, CompoundQuery|SimpleQuery)` -> q_isinst; `x.operator == operator.not_|and_|or_` -> opname_eqb;
     `x._point_attr == "_fields"|"_tags"|"_time"|"_measurement"` -> attr_name_eqb; `x._hash is None` -> q_hash_is_none;
     `x.query2 is None`; `x.query1` / `x.query2` as arguments of the recursive call; `and`, `or`, `not`;
-  * statements: `if c: return <expr>`, nested `if` blocks ending in return, `return <expr>`;
+  * statements: `if c: return <expr>`, nested `if` blocks ending in return, `return <expr>`, `name = <boolean expr>` (inlined);
   * recursion is translated with explicit fuel (the size of the query suffices: proofs/GuardGenP.v).
 
 Usage: py2coq_guard.py <path/to/database.py> <out.v>
@@ -46,6 +46,8 @@ class Tr:
 
     def expr(self, e):
         """boolean expression -> coq term : bool (rec is the recursive call with less fuel)"""
+        if isinstance(e, ast.Name) and e.id in getattr(self, "locals_", {}):
+            return self.locals_[e.id]                      # a local that names a boolean expression (assigned once, inlined)
         if isinstance(e, ast.Constant) and isinstance(e.value, bool):
             return "true" if e.value else "false"
         if isinstance(e, ast.UnaryOp) and isinstance(e.op, ast.Not):
@@ -104,6 +106,15 @@ class Tr:
             return self.block(rest, rest_term)
         if isinstance(s, ast.Return) and s.value is not None:
             return self.expr(s.value)
+        if isinstance(s, ast.Assign) and len(s.targets) == 1 and isinstance(s.targets[0], ast.Name) and s.targets[0].id != self.arg:
+            if not hasattr(self, "locals_"):
+                self.locals_ = {}
+            if s.targets[0].id in self.locals_:
+                raise Refuse("a local is assigned twice")
+            self.locals_[s.targets[0].id] = self.expr(s.value)
+            out = self.block(rest, rest_term)
+            del self.locals_[s.targets[0].id]
+            return out
         if isinstance(s, ast.If) and not s.orelse:
             after = self.block(rest, rest_term)
             return f"(if {self.expr(s.test)}\n     then {self.block(list(s.body), after)}\n     else {after})"
